@@ -8,6 +8,10 @@ Lemmas == MethodAgrees /\ RouteTableOK
 AllVariants == {"cur", "ver", "src-other"}
 Vectors == {vv \in {[route |-> r.name, caller |-> c, variant |-> v, mut |-> r.mut, stray |-> ""] : r \in S3Routes, c \in Callers, v \in AllVariants} :
                vv.variant \in Variants(Route(vv.route))}
+           \cup {[route |-> r.name, caller |-> c, variant |-> v, mut |-> r.mut, stray |-> ""] :
+                    r \in {rr \in S3Routes : rr.name \in OddReads}, c \in Callers, v \in {"implicit-dir", "raw-file"}}
+           \cup {[route |-> "CreateBucket", caller |-> c, variant |-> v, mut |-> TRUE, stray |-> ""] :
+                    c \in Callers, v \in {"orphan", "orphan-lock"}}
            \cup {[route |-> r.name, caller |-> c, variant |-> "stray", mut |-> TRUE, stray |-> s] :
                     r \in {rr \in S3Routes : rr.mut}, c \in StrayCallers, s \in Strays}
 ASSUME Emit == ndJsonSerialize("vectors.ndjson", SetToSeq(Vectors))
